@@ -191,7 +191,8 @@ def _copy_and_compare(rp, variant, workdir, rc, mo, hist, cls, blobs, opts):
         except Exception as ex:
             import traceback
             tb = traceback.extract_tb(ex.__traceback__)[-1]
-            return ('copy-raised', ['copy raised %s at %s:%s (%s)' % (type(ex).__name__, os.path.basename(tb.filename), tb.name, str(ex)[:100])])
+            return ('copy-raised:%s@%s' % (type(ex).__name__, tb.name),
+                    ['copy raised %s at %s:%s (%s)' % (type(ex).__name__, os.path.basename(tb.filename), tb.name, str(ex)[:100])])
         mm = rd.compare(mo, hist=hist)
         if mm:
             return ('copy', mm)
@@ -390,6 +391,7 @@ def load_scan_graph(dot):
                            tuple(int(x) for x in d.split(',')) if d else (), int(var['start'].search(lab).group(1)))
                     inits.append((m.group(1), key))
     table = {}
+    nodes = len(info)
     for nid, key in inits:
         seen = set()
         cur = nid
@@ -402,7 +404,7 @@ def load_scan_graph(dot):
                 break
             seen.add(cur)
             cur = succ[cur]
-    return table
+    return table, nodes
 
 
 def scan_replay(job):
@@ -420,4 +422,402 @@ def scan_replay(job):
         if got != want:
             out['mismatch'].append({'n': n, 'fill': fill, 'dots': list(dots), 'start': start, 'chunk': chunk, 'spec': want, 'impl': got})
     shutil.rmtree(wd, ignore_errors=True)
+    return out
+
+
+# ======================================================================================================
+# (b) fsrecover on damaged data files
+
+TH = struct.Struct('>8sQcHHH')       # transaction header: tid, length, status, len(user), len(descr), len(ext)
+DH = struct.Struct('>8s8sQQHQ')      # data header: oid, tid, prev, tloc, len(version), len(data)
+
+
+def parse_fs(data, tolerant=False):
+    """Harness-side reading of a FileStorage file (independent of the code under test).
+    -> list of transactions {s, h, e, tid, status, user, descr, ext, recs: [{pos, end, oid, tid, data, back, dtid}],
+       deps: [(lo, hi)], items: [(class, lo, hi)]}; data of a back-pointer record is resolved."""
+    assert data[:4] in (b'FS21', b'FS30'), data[:4]
+    txns = []
+    pos = 4
+    n = len(data)
+    recat = {}
+
+    def resolve(back, ranges):
+        while back:
+            r = recat[back]
+            ranges.append((r['pos'], r['end']))
+            if r['plen']:
+                return r['raw']
+            back = r['back']
+        return None
+
+    while pos < n:
+        if tolerant and n - pos < 23:
+            break
+        tid, tl, status, ul, dl, el = TH.unpack_from(data, pos)
+        s, h, e = pos, pos + 23 + ul + dl + el, pos + tl + 8
+        if tolerant and (e > n or data[e - 8:e] != struct.pack('>Q', tl) or status == b'c'):
+            break                      # an unfinished transaction at the end of an output file
+        assert data[e - 8:e] == struct.pack('>Q', tl) and e <= n, 'not a complete data file'
+        t = {'s': s, 'h': h, 'e': e, 'tid': tid, 'status': status.decode('latin-1'), 'user': data[s + 23:s + 23 + ul],
+             'descr': data[s + 23 + ul:s + 23 + ul + dl], 'ext': data[s + 23 + ul + dl:h], 'recs': [], 'deps': [], 'dtx': set(),
+             'items': [('th.tid', s, s + 8), ('th.len', s + 8, s + 16), ('th.status', s + 16, s + 17), ('th.lens', s + 17, s + 23)]}
+        if h > s + 23:
+            t['items'].append(('th.meta', s + 23, h))
+        p = h
+        while p < e - 8:
+            oid, rtid, prev, tloc, vlen, plen = DH.unpack_from(data, p)
+            assert vlen == 0 and tloc == s
+            r = {'pos': p, 'oid': oid, 'tid': rtid, 'plen': plen, 'back': 0, 'dtid': None, 'ti': len(txns) + 1}
+            t['items'] += [('dh.oid', p, p + 8), ('dh.tid', p + 8, p + 16), ('dh.prev', p + 16, p + 24), ('dh.tloc', p + 24, p + 32),
+                           ('dh.vlen', p + 32, p + 34), ('dh.plen', p + 34, p + 42)]
+            if plen:
+                r['raw'] = r['data'] = data[p + 42:p + 42 + plen]
+                r['end'] = p + 42 + plen
+                t['items'].append(('pickle', p + 42, r['end'] - 1))
+                t['items'].append(('pickle.stop', r['end'] - 1, r['end']))
+            else:
+                r['back'] = struct.unpack_from('>Q', data, p + 42)[0]
+                r['end'] = p + 50
+                t['items'].append(('backptr', p + 42, p + 50))
+                ranges = []
+                r['data'] = resolve(r['back'], ranges)
+                t['deps'] += ranges
+                if r['back']:
+                    r['dtid'] = recat[r['back']]['tid']
+                    t['dtx'].add(recat[r['back']]['ti'])
+            recat[p] = r
+            t['recs'].append(r)
+            p = r['end']
+        assert p == e - 8
+        t['items'].append(('th.len2', e - 8, e))
+        txns.append(t)
+        pos = e
+    return txns
+
+
+def content(t):
+    """what must be unchanged in an output transaction: id, status, metadata, records (oid, data)"""
+    return (t['tid'], t['status'], t['user'], t['descr'], t['ext'], tuple((r['oid'], r['tid'], r['data']) for r in t['recs']))
+
+
+def iter_view(txns, T):
+    """the iterator column of the model's observation table, read from parsed transactions"""
+    out = []
+    for t in txns:
+        import pickle
+        ext = pickle.loads(t['ext']) if t['ext'] else {}
+        out.append({'tid': T.model(t['tid']), 'status': t['status'], 'meta': sd.meta_name(t['user'], t['descr'], ext),
+                    'recs': tuple({'oid': u64(r['oid']), 'd': cz.datum_of(r['data']), 'dtxn': T.model(r['dtid']) if r['dtid'] else 0}
+                                  for r in t['recs'])})
+    return tuple(out)
+
+
+class Recorder:
+    """Harness-side substitutions in the namespace of ZODB.fsrecover (the functions recover() calls through
+    module globals): read_txn_header and scan are wrapped to record their outcome, scan reads through a
+    StepFile (progress watchdog), the output FileStorage reports tpc_finish / tpc_abort."""
+
+    def __init__(self):
+        import ZODB.fsrecover as fr
+        import ZODB.FileStorage
+        self.fr = fr
+        names = fr.recover.__code__.co_names
+        for need in ('read_txn_header', 'scan', 'ZODB'):
+            if need not in names:
+                raise RuntimeError('fsrecover.recover does not use the global %s: the recorder cannot be installed' % need)
+        self.orig = (fr.read_txn_header, fr.scan, fr.ZODB)
+        self.events = []
+        self.size = 0
+        rec = self
+
+        def read_txn_header(f, pos, file_size, outp, ltid):
+            try:
+                npos, txn, tid = rec.orig[0](f, pos, file_size, outp, ltid)
+            except EOFError:
+                rec.events.append(('hdr', pos, 'eof'))
+                raise
+            except (KeyboardInterrupt, SystemExit, Hang):
+                raise
+            except Exception:
+                rec.events.append(('hdr', pos, 'err'))
+                raise
+            rec.events.append(('hdr', pos, 'undone' if txn is None else 'ok', npos, tid))
+            return npos, txn, tid
+
+        def scan(f, pos):
+            try:
+                q = rec.orig[1](StepFile(f, rec.size), pos)
+            except Hang:
+                rec.events.append(('scan', pos, -1))
+                raise
+            rec.events.append(('scan', pos, q))
+            return q
+
+        def storage(*a, **kw):
+            st = ZODB.FileStorage.FileStorage(*a, **kw)
+            fin, ab = st.tpc_finish, st.tpc_abort
+
+            def tpc_finish(txn, f=None):
+                r = fin(txn, f)
+                rec.events.append(('copy',))
+                return r
+
+            def tpc_abort(txn):
+                r = ab(txn)
+                rec.events.append(('abort',))
+                return r
+            st.tpc_finish, st.tpc_abort = tpc_finish, tpc_abort
+            rec.events.append(('open',))
+            rec.st = st
+            return st
+
+        self.subst = (read_txn_header, scan,
+                      types.SimpleNamespace(FileStorage=types.SimpleNamespace(packed_version=ZODB.FileStorage.packed_version,
+                                                                              FileStorage=storage)))
+
+    def run(self, inp, outp, size, timeout=30):
+        """-> (events, how the run ended: 'end' | 'die' | 'hang' | 'crash:<Exception>')"""
+        import contextlib
+        import io
+        fr = self.fr
+        self.events = []
+        self.size = size
+        fr.read_txn_header, fr.scan, fr.ZODB = self.subst
+        how = 'end'
+        try:
+            with contextlib.redirect_stdout(io.StringIO()), contextlib.redirect_stderr(io.StringIO()):
+                with Watchdog(timeout):
+                    fr.recover(inp, outp, 0, False, True, None)
+        except SystemExit:
+            how = 'die'
+        except Hang:
+            how = 'hang'
+        except Exception as ex:
+            import traceback
+            tb = traceback.extract_tb(ex.__traceback__)[-1]
+            how = 'crash:%s@%s' % (type(ex).__name__, tb.name)
+        finally:
+            fr.read_txn_header, fr.scan, fr.ZODB = self.orig
+            st, self.st = getattr(self, 'st', None), None
+            if st is not None and how != 'end':
+                try:                                  # recover() did not get to close its output storage
+                    if st._transaction is not None:
+                        st.tpc_abort(st._transaction)
+                    st.close()
+                except Exception:
+                    pass
+        return self.events, how
+
+
+def damage_bytes(data, dmg, rng_seed=0):
+    """dmg = ('cut', p) | ('fill', lo, hi, fill) with fill in zero/ff/dot/noise"""
+    if dmg[0] == 'none':
+        return data
+    if dmg[0] == 'cut':
+        return data[:dmg[1]]
+    _, lo, hi, fill = dmg
+    if fill == 'noise':
+        import random
+        rng = random.Random(rng_seed * 1000003 + lo * 131 + hi)
+        junk = bytes(rng.getrandbits(8) for _ in range(hi - lo))
+    else:
+        junk = {'zero': b'\0', 'ff': b'\xff', 'dot': b'.'}[fill] * (hi - lo)
+    return data[:lo] + junk + data[hi:]
+
+
+def project_run(txns, original, dmg, damaged, events, how, outtx):
+    """The recorded run in the vocabulary of ZRecoverTool (positions are byte offsets, ids are 2 * index of the
+    input transaction with that id, odd numbers for ids in between)."""
+    tids = [t['tid'] for t in txns]
+
+    def tidm(tid):
+        if tid in tids:
+            return 2 * (tids.index(tid) + 1)
+        return 2 * sum(1 for x in tids if x < tid) + 1
+    bystart = {t['s']: i for i, t in enumerate(txns)}
+    size0 = len(original)
+    if dmg[0] == 'cut':
+        size, lo, hi = dmg[1], dmg[1], size0
+    elif dmg[0] == 'none':
+        size, lo, hi = size0, 0, 0
+    else:
+        size, lo, hi = size0, dmg[1], dmg[2]
+        # bytes that the fill left as they were are not damaged
+        while lo < hi and damaged[lo] == original[lo]:
+            lo += 1
+        while lo < hi and damaged[hi - 1] == original[hi - 1]:
+            hi -= 1
+        if lo >= hi:
+            lo = hi = 0
+    ev = []
+    k = 0
+    srcs = []
+    cur = None
+    for e in events:
+        if e[0] == 'hdr':
+            if e[2] in ('ok', 'undone'):
+                ev.append({'k': 'hdr', 'p': e[1], 'r': e[2], 'q': e[3], 't': tidm(e[4]), 'same': False})
+                cur = bystart.get(e[1])
+            else:
+                ev.append({'k': 'hdr', 'p': e[1], 'r': e[2], 'q': 0, 't': 0, 'same': False})
+        elif e[0] == 'scan':
+            ev.append({'k': 'scan', 'p': e[1], 'r': '-', 'q': e[2], 't': 0, 'same': False})
+        elif e[0] == 'copy':
+            same = False
+            if k < len(outtx) and cur is not None:
+                same = content(outtx[k]) == content(txns[cur])
+            srcs.append((cur, same))
+            k += 1
+            ev.append({'k': 'copy', 'p': 0, 'r': '-', 'q': 0, 't': 0, 'same': same})
+        else:
+            ev.append({'k': e[0], 'p': 0, 'r': '-', 'q': 0, 't': 0, 'same': False})
+    if how.startswith('crash'):
+        ev.append({'k': 'crash', 'p': 0, 'r': '-', 'q': 0, 't': 0, 'same': False})
+        how = 'end'
+    ev.append({'k': how, 'p': 0, 'r': '-', 'q': 0, 't': 0, 'same': False})
+    run = {'size': size, 'lo': lo, 'hi': hi, 'ev': ev}
+    return run, srcs, k
+
+
+def extents(txns):
+    return [{'s': t['s'], 'h': t['h'], 'e': t['e'], 'deps': [list(d) for d in sorted(set(t['deps']))], 'dtx': sorted(t['dtx'])} for t in txns]
+
+
+def build_source(job):
+    """job = (behaviour file | steps, consts, workdir, opts) -> the data file a real FileStorage holds after the
+    behaviour, with what TLC printed for its final state; None if the behaviour is of no use (too few transactions).
+    The harness's own reading of the file (parse_fs) is checked against the iterator column of TLC's table."""
+    from .. import tlaparse
+    beh, c, workdir, opts = job
+    if isinstance(beh, str):
+        beh = tlaparse.parse_simulate_file(beh)
+    final = beh[-1]['state']
+    hist = norm(final['hist'])
+    if len(hist) < opts.get('min_txns', 3):
+        return None
+    rc = dict(c, Cls=sd.cls_map(c))
+    shutil.rmtree(workdir, ignore_errors=True)
+    os.makedirs(workdir)
+    rp = sd.StorageReplayer('file', rc, os.path.join(workdir, 'src'), opts)
+    try:
+        rp.open()
+        sig = []
+        for i, step in enumerate(beh):
+            sig.append(step['action'] + repr(tuple(norm(step['args']))))
+            mm = rp.step(step['action'], step['args'], step['state'])
+            if mm:
+                return {'failed': {'step': i, 'action': step['action'], 'detail': mm[:2]}, 'sig': sig}
+        rp.st.close()
+        with open(rp.path, 'rb') as f:
+            data = f.read()
+    finally:
+        rp.close()
+        shutil.rmtree(workdir, ignore_errors=True)
+    txns = parse_fs(data)
+    mo = norm(final['obs'])
+    mine = iter_view(txns, rp.tids)
+    if mine != mo['iter']:
+        out = []
+        sd.diff('iter', mo['iter'], mine, out)
+        raise RuntimeError('the harness reads the source file differently from the table TLC printed: %s' % out[:3])
+    return {'data': data, 'obs': final['obs'], 'hist': final['hist'], 'consts': rc, 'sig': sig, 'ntx': len(txns),
+            'backs': sum(1 for t in txns for r in t['recs'] if r['back']),
+            'zeros': sum(1 for t in txns for r in t['recs'] if not r['plen'] and not r['back']), 'packed': sum(1 for t in txns if t['status'] == 'p')}
+
+
+def recover_cases(job):
+    """job = (source index, original bytes, [damage], workdir, seed, model (obs, hist, consts) | None)
+    Runs the real fsrecover.recover on every damaged copy under the watchdogs, records and projects the run.
+    -> list of {run (for ZRecoverTrace), dmg, how, dot8, crash, table (mismatches of the undamaged recovery)}"""
+    fidx, data, damages, wd, seed, model = job
+    shutil.rmtree(wd, ignore_errors=True)
+    os.makedirs(wd)
+    txns = parse_fs(data)
+    rec = Recorder()
+    inp, outp = os.path.join(wd, 'in.fs'), os.path.join(wd, 'out.fs')
+    res = []
+    for dmg in damages:
+        damaged = damage_bytes(data, dmg, seed)
+        with open(inp, 'wb') as f:
+            f.write(damaged)
+        for x in os.listdir(wd):
+            if x.startswith('out.fs'):
+                os.remove(os.path.join(wd, x))
+        events, how = rec.run(inp, outp, len(damaged))
+        try:
+            with open(outp, 'rb') as f:
+                outtx = parse_fs(f.read(), tolerant=True)
+        except FileNotFoundError:
+            outtx = []
+        run, srcs, ncopy = project_run(txns, data, dmg, damaged, events, how, outtx)
+        run['f'] = fidx + 1
+        r = {'run': run, 'dmg': dmg, 'how': how, 'dot8': b'.' in damaged[-8:], 'nout': len(outtx), 'ncopy': ncopy, 'table': None,
+             'altered': sum(1 for s in srcs if not s[1]), 'scans': sum(1 for e in events if e[0] == 'scan')}
+        if how == 'end' and ncopy != len(outtx):
+            raise RuntimeError('recorder saw %d tpc_finish calls, the output file holds %d transactions (%r)' % (ncopy, len(outtx), dmg))
+        if dmg[0] == 'none' and model is not None and how == 'end':
+            # recovery of the undamaged file: the output storage must answer every query as TLC's table says
+            from ZODB.FileStorage import FileStorage
+            obs, hist, rc = model
+            rd = sd.StorageReplayer('file', rc, wd, {})
+            rd.st = FileStorage(outp)
+            try:
+                r['table'] = rd.compare(obs, hist=norm(hist)) or None
+            finally:
+                rd.st.close()
+        res.append(r)
+    shutil.rmtree(wd, ignore_errors=True)
+    return res
+
+
+def enumerate_damages(txns, size, every_byte, rng, budget=None):
+    """Damages relative to the item boundaries of a parsed data file.
+    every_byte: each byte position x lengths (1, 9, 40) x four fills, and every truncation point;
+    otherwise a few positions per item class (first / last instance, first / last byte, crossing the end),
+    lengths from 1 to "the rest of the file", fills rotating, truncations at and around item boundaries and
+    within the last 12 bytes."""
+    fills = ('zero', 'ff', 'dot', 'noise')
+    out = [('none',)]
+    if every_byte:
+        for p in range(size):
+            for ln in (1, 9, 40):
+                if p + ln <= size:
+                    for f in fills:
+                        out.append(('fill', p, p + ln, f))
+            out.append(('cut', p))
+        return out
+    items = [('magic', 0, 4)] + [it for t in txns for it in t['items']]
+    byclass = {}
+    for it in items:
+        byclass.setdefault(it[0], []).append(it)
+    n = 0
+    for cls, insts in sorted(byclass.items()):
+        picks = {0, len(insts) - 1, len(insts) // 2, rng.randrange(len(insts))}
+        for k in sorted(picks):
+            _, a, b = insts[k]
+            if b <= a:
+                continue
+            for lo, hi in {(a, a + 1), (b - 1, b), (a, b), (a, min(size, b + 3)), (max(0, a - 2), a + 1), (b - 1, min(size, b + 8))}:
+                if lo >= hi:
+                    continue
+                for j in range(2 if hi - lo > 1 else 4):
+                    out.append(('fill', lo, hi, fills[(n + j) % 4]))
+                n += 1
+            for p in (a, a + 1, b - 1):
+                if 0 <= p < size:
+                    out.append(('cut', p))
+    for t in txns:
+        for ln in (64, 700, size):
+            lo = rng.randrange(t['s'], t['e'])
+            out.append(('fill', lo, min(size, lo + ln), fills[n % 4]))
+            n += 1
+    for p in range(max(0, size - 12), size):
+        out.append(('cut', p))
+    out = list(dict.fromkeys(out))
+    if budget and len(out) > budget:
+        head = out[:1]
+        rest = out[1:]
+        rng.shuffle(rest)
+        out = head + rest[:budget - 1]
     return out
